@@ -47,6 +47,27 @@ fn verif_replay() {
                 Err(_) => println!("VERIF-OUTCOME {}", serde_json::json!({"panicked": true})),
             }
         }
+        "cache_expiry" => {
+            // real time: store a verdict, look it up inside the time-out, look it up again after the stored verdict's expiry
+            let t = a["timeout"].as_u64().unwrap_or(1);
+            let first = a["first_lookup_ms"].as_u64().unwrap_or(600);
+            let second = a["second_lookup_ms"].as_u64().unwrap_or(1500);
+            let rt = tokio::runtime::Builder::new_current_thread().enable_all().build().unwrap();
+            let r = catch_unwind(AssertUnwindSafe(|| rt.block_on(async {
+                let c = Cache { timeout: t, data: Default::default() };
+                let k = ("user".to_string(), "pass".to_string());
+                c.set(&k, true).await;
+                tokio::time::sleep(std::time::Duration::from_millis(first)).await;
+                let h1 = c.check(&k).await;
+                tokio::time::sleep(std::time::Duration::from_millis(second - first)).await;
+                let h2 = c.check(&k).await;
+                (h1.is_some(), h2.is_some())
+            })));
+            match r {
+                Ok((h1, h2)) => println!("VERIF-OUTCOME {}", serde_json::json!({"panicked": false, "served_inside": h1, "served_after_expiry": h2})),
+                Err(_) => println!("VERIF-OUTCOME {}", serde_json::json!({"panicked": true})),
+            }
+        }
         d => println!("VERIF-OUTCOME {}", serde_json::json!({"unknown_driver": d})),
     }
 }
